@@ -540,7 +540,7 @@ Proof. repeat split. Qed.
 
 (** ** a prefixed unit first met inside a unit-redefining context (seeded change C18-m5) *)
 Definition ex_inside : sreg := match unpickle_q ex_app (reduce_q ex_q) with SOk (_, r) => r | SErr _ => ex_app end.
-Definition ex_left : sreg := ctx_leave (ctx_enter ex_app).2 ex_inside.
+Definition ex_left : sreg := (ctx_leave (ctx_enter ∅ ex_app).2 ex_inside).1.
 Lemma ex_context_history :
   (* inside the context both names were written, leaving drops them from _units but not from _lazy_units *)
   is_Some (r_units ex_inside !! "kiloinch") ∧ r_units ex_left !! "kiloinch" = None ∧ is_lazy ex_left "kiloinch" = true
